@@ -32,6 +32,11 @@ CLAIMS['C11'] = dict(
    text='Decides structural clauses of crash/hang freedom on untrusted input for all paths: (G1) every goroutine started on the reader path has a deferred recover or reaches no explicit panic / panicking codec primitive outside one; (A1/A2/A3) integers originating in uvarints, fixed-width reads or VNG metadata are upper-bounded (by something other than MaxInt) before they size an allocation, and range-checked when converted uint64->int; header section sizes are each bounded; (N1) a decoder result is used only where its nil-rest failure indicator was tested; (P1) input-dependent type-context lookup errors are returned, not raised; (O4) no reader goroutine or consumer can be left blocked. Twelve VNG-reader violations are genuine and recorded as known findings. Does not decide absence of implicit runtime panics (index out of range) on all byte strings, termination of text parsers, or compile-time panics of the semantic analyzer.',
    note='Stdlib interface implementations do not panic; a function with a deferred recover contains its synchronous callees; taint is flow-insensitive across fields except the enumerated metadata structs.',
    ref='DESIGN.md §2 C11')
+CLAIMS['C04'] = dict(
+   technique='borrowed-value ownership analysis on SSA (E-own), edge-dominance of the exact filter, type-kind coverage between sibling traversals, shared typestate rules',
+   text='Decides structural conditions behind encoding independence, for all paths: (P1) in the ZNG scanner a decoded value is kept only on the true arm of the exact filter and only a boolean true passes; (K1) every container kind zed.Walk descends (the search evaluator) is handled by the functions reachable from the buffer filter\'s FieldNameFinder; (W1) the type context only caches bytes it owns; (W2) none of the 26 Write(zed.Value) implementers retains its argument or anything derived from it without a copy; (W3) an operator that releases a pulled batch keeps none of its values without a copy; (B1) the pooled frame buffer is released exactly once and peeker bytes escape only through a copy. Does not decide equality of results across encodings, nor soundness of the buffer filter\'s string patterns.',
+   note='Calls leaving the package do not retain their arguments (each implementer is itself an obligation); evaluator results may alias their input; strings are copies except byteconv.UnsafeString.',
+   ref='DESIGN.md §2 C04')
 NA = {}
 for i in range(1, 21):
     pid = 'C%02d' % i
